@@ -761,3 +761,55 @@ package machine
 //@   loop 1 invariant idx: 0 <= i
 //@   loop 3 invariant idx: 0 <= i
 //@   loop 4 invariant idx: 0 <= i
+
+// ---- C03: mutation entry points: guards ----
+
+//@ func (m *Machine) Backoff() (r bool)
+//@   trusted time-based (LastHandlerDeadline vs. the wall clock); treated as a pure function sampled once per call
+//@   pure
+//@ func (m *Machine) queueMutation(mutType MutationType, states S, args A, event *Event) (r uint64)
+//@   trusted specified with C04
+//@   assigns *
+//@ func (m *Machine) processQueue() (r Result)
+//@   trusted specified with C04: runs queued transitions
+//@   assigns *
+//@ func (m *Machine) breakpoint(added S, removed S)
+//@   trusted debugging aid
+
+// Guarded: the call is refused without any effect.
+//@ pred Refused(m *Machine, r Result) := r == Canceled
+
+//@ func (m *Machine) Add(states S, args A) (r Result)
+//@   props C03 C13
+//@   requires locks: unlocked(m.activeStatesMx)
+//@   assigns *
+//@   ensures  disposing: old(m.disposing) ==> r == Canceled && ghost.applied == old(ghost.applied) && unchanged(m.queue, m.queueTick, m.activeStates) && mapeq(m.clock, old(m.clock))
+//@   ensures  backoff:   m.Backoff() ==> r == Canceled && unchanged(m.queue, m.queueTick, m.activeStates) && mapeq(m.clock, old(m.clock))
+//@   ensures  limit:     old(u16(m.queueLen) >= m.QueueLimit) && !mem(states, "Exception") ==> r == Canceled && unchanged(m.queue, m.queueTick, m.activeStates) && mapeq(m.clock, old(m.clock))
+
+//@ func (m *Machine) Remove(states S, args A) (r Result)
+//@   props C03 C13
+//@   requires locks: unlocked(m.activeStatesMx) && unlocked(m.queueMx)
+//@   assigns *
+//@   ensures  disposing: old(m.disposing) ==> r == Canceled && unchanged(m.queue, m.queueTick, m.activeStates) && mapeq(m.clock, old(m.clock))
+//@   ensures  backoff:   m.Backoff() ==> r == Canceled && unchanged(m.queue, m.queueTick, m.activeStates) && mapeq(m.clock, old(m.clock))
+//@   ensures  limit:     old(u16(m.queueLen) >= m.QueueLimit) && !mem(states, "Exception") ==> r == Canceled && unchanged(m.queue, m.queueTick, m.activeStates) && mapeq(m.clock, old(m.clock))
+
+//@ func (m *Machine) Set(states S, args A) (r Result)
+//@   props C03 C13
+//@   assigns *
+//@   ensures  disposing: old(m.disposing) ==> r == Canceled && unchanged(m.queue, m.queueTick, m.activeStates) && mapeq(m.clock, old(m.clock))
+//@   ensures  backoff:   m.Backoff() ==> r == Canceled && unchanged(m.queue, m.queueTick, m.activeStates) && mapeq(m.clock, old(m.clock))
+//@   ensures  limit:     old(u16(m.queueLen) >= m.QueueLimit) ==> r == Canceled && unchanged(m.queue, m.queueTick, m.activeStates) && mapeq(m.clock, old(m.clock))
+
+//@ func (m *Machine) CanAdd(states S, args A) (r Result)
+//@   props C03 C13
+//@   assigns *
+//@   ensures  disposing: old(m.disposing) ==> r == Canceled && unchanged(m.queue, m.queueTick, m.activeStates) && mapeq(m.clock, old(m.clock))
+//@   ensures  backoff:   m.Backoff() ==> r == Canceled && unchanged(m.queue, m.queueTick, m.activeStates) && mapeq(m.clock, old(m.clock))
+
+//@ func (m *Machine) CanRemove(states S, args A) (r Result)
+//@   props C03 C13
+//@   assigns *
+//@   ensures  disposing: old(m.disposing) ==> r == Canceled && unchanged(m.queue, m.queueTick, m.activeStates) && mapeq(m.clock, old(m.clock))
+//@   ensures  backoff:   m.Backoff() ==> r == Canceled && unchanged(m.queue, m.queueTick, m.activeStates) && mapeq(m.clock, old(m.clock))
